@@ -54,7 +54,7 @@ SReset ==
   /\ IsEv("Reset")
   /\ LET e == Rec[l] IN
      /\ sid' = e.id
-     /\ cfg' = [kind |-> e.kind, crc |-> e.crc, nblocks |-> e.nblocks, cap |-> Num(e.cap), capp |-> e.cap, a41 |-> e.acmd41, csd |-> e.csd, weird |-> e.weird]
+     /\ cfg' = [kind |-> e.kind, crc |-> e.crc, nblocks |-> e.nblocks, cap |-> (IF e.weird THEN 0 ELSE Num(e.cap)), capp |-> e.cap, a41 |-> e.acmd41, csd |-> e.csd, weird |-> e.weird, caprem |-> e.caprem]
      /\ c' = InitCard(e.acmd41)
      /\ viol' = Report(IF e.weird \/ CsdBlocks(e.csd) = Num(e.cap) THEN {} ELSE {<<"TOOL", "Simulator", "capacity of the generated CSD differs from SdCard.CsdBlocks">>})
   /\ mem' = <<>> /\ exp' = <<>> /\ call' = NoCall /\ seen' = {} /\ needinit' = TRUE /\ first' = TRUE /\ alive' = TRUE
@@ -208,7 +208,10 @@ SRet ==
                                           /\ \A i \in 1..call.n : e.pay[i] # MemAt(exp, blocks[i]) => e.zeros[i]) THEN {<<"C13", "CorruptAccepted", "damaged data returned as good although CRC is enabled">>} ELSE {})
                    ELSE {<<"C12", "ReadData", "read returned other blocks than the card stores at that address">>})
              ELSE {})
-       \cup (IF ok /\ call.op \in {"num_blocks", "num_bytes"} /\ (e.val # cfg.capp \/ e.rem # 0) /\ ~Corrupt /\ ~cfg.weird
+       \* (bytes: exactly what the register encodes; blocks: the whole 512-byte blocks of that, at most 2^32 - 1)
+       \cup (IF ok /\ call.op \in {"num_blocks", "num_bytes"} /\ ~Corrupt
+                /\ (IF call.op = "num_bytes" THEN e.val # cfg.capp \/ e.rem # cfg.caprem
+                    ELSE e.rem # 0 \/ e.val # (IF cfg.capp[1] >= 65536 THEN <<65535, 65535>> ELSE cfg.capp))
              THEN {<<"C12", "Capacity", "reported capacity differs from the CSD register's (structure version " \o ToString(cfg.csd.ver) \o ")">>} ELSE {})
        \cup (IF ok /\ call.op = "card_type" /\ e.e # cfg.kind THEN {<<"C12", "CardKind", "identified " \o e.e \o " for a " \o cfg.kind \o " card">>} ELSE {})
        \cup (IF ok /\ dataop /\ call.blk >= cfg.nblocks /\ ~Faulty
